@@ -387,6 +387,18 @@ func runPair(e *c08Env) *drv.Failure {
 				_, _ = sd.cdc.Decode(nil)
 			}
 		}
+		if len(sd.states)%4 == 2 {
+			// a key set naming a channel that does not exist is refused as a whole and
+			// must leave the backlog as it was (the peer will not have it either)
+			pend, _ := codec.VerifPending(sd.cdc)
+			before := int(codec.VerifSeqNum(sd.cdc)) + pend
+			err := sd.cdc.Update(e.ctx, append(e.realKeys(u, false), c08Svc.missing))
+			pend, _ = codec.VerifPending(sd.cdc)
+			if after := int(codec.VerifSeqNum(sd.cdc)) + pend; err == nil || after != before {
+				return drv.Failf("harness", "missing-channel-update", "Update naming a missing channel: err=%v, backlog %d -> %d; the model does not cover this", err, before, after)
+			}
+			e.st.Probe("update_missing_channel_refused")
+		}
 		if err := sd.cdc.Update(e.ctx, e.realKeys(u, name == "d")); err != nil {
 			return drv.Failf("update-refused", "existing-channels", "Update(%v) on side %s: %v", u, name, err)
 		}
